@@ -45,7 +45,7 @@ int readsplinefitstable(const char* path, struct splinetable* table){
 }
 
 int writesplinefitstable(const char* path, const struct splinetable* table){
-	if(!path || !table)
+	if(!path || !table || !table->data)
 		return(1);
 	try{
 		const auto& real_table=*static_cast<const photospline::splinetable<>*>(table->data);
@@ -215,6 +215,8 @@ double ndsplineeval_deriv(const struct splinetable* table, const double* x,
 	
 int splinetable_convolve(struct splinetable* table, const int dim,
                          const double* knots, size_t n_knots){
+	if(!table || !table->data || !knots)
+		return(1);
 	try{
 		auto& real_table=*static_cast<photospline::splinetable<>*>(table->data);
 		real_table.convolve(dim, knots, n_knots);
@@ -247,7 +249,7 @@ int readsplinefitstable_mem(const struct splinetable_buffer* buffer,
 	
 int writesplinefitstable_mem(struct splinetable_buffer* buffer,
                              const struct splinetable* table){
-	if(!buffer || buffer->data || !table)
+	if(!buffer || buffer->data || !table || !table->data)
 		return(1);
 	try{
 		auto& real_table=*static_cast<photospline::splinetable<>*>(table->data);
@@ -305,8 +307,10 @@ int splinetable_glamfit(struct splinetable* table, const struct ndsparse* data,
 
 int splinetable_grideval(struct splinetable* table, const double* const* coords,
                          const uint32_t* ncoords, struct ndsparse** result){
+	if(!result)
+		return(1);
 	*result=NULL;
-	if(!table || !table->data)
+	if(!table || !table->data || !coords || !ncoords)
 		return(1);
 	try{
 		auto& real_table=*static_cast<photospline::splinetable<>*>(table->data);
@@ -335,6 +339,8 @@ void ndsparse_destroy(struct ndsparse* nd){
 #endif //PHOTOSPLINE_INCLUDES_SPGLAM
 	
 int splinetable_permute(struct splinetable* table, size_t* permutation){
+	if(!table || !table->data || !permutation)
+		return(1);
 	try{
 		auto& real_table=*static_cast<photospline::splinetable<>*>(table->data);
 		std::vector<size_t> permutationv(real_table.get_ndim());
